@@ -25,6 +25,7 @@ class Promise(Generic[T]):
         self._error: Optional[Exception] = None
         self._resolvers: list[Callable[[T], S]] = []
         self._rejectors: list[Callable[[Exception], S]] = []
+        self._notifying = False
 
         if func:
             try:
@@ -86,23 +87,28 @@ class Promise(Generic[T]):
         """
         Notify all listeners of the promise.
         """
-        if self.is_pending:
-            # If promise is still pending, do nothing.
+        if self.is_pending or self._notifying:
+            # If promise is still pending, do nothing. If a notification is already in
+            # progress (a callback registered another callback on this promise), the active
+            # loop below delivers the new callback after the ones registered before it.
             return
-        elif self.is_fulfilled:
-            # If promise is resolved, notify new resolvers. Discard rejectors.
-            resolvers = self._resolvers
-            self._resolvers = []
-            self._rejectors.clear()
-            for resolver in resolvers:
-                resolver(cast(T, self._value))
-        else:
-            # If promise is rejected, notify new rejectors. Discard resolvers.
-            self._resolvers.clear()
-            rejectors = self._rejectors
-            self._rejectors = []
-            for rejector in rejectors:
-                rejector(cast(Exception, self._error))
+
+        self._notifying = True
+        try:
+            if self.is_fulfilled:
+                # If promise is resolved, notify new resolvers. Discard rejectors.
+                while self._resolvers:
+                    resolver = self._resolvers.pop(0)
+                    resolver(cast(T, self._value))
+                self._rejectors.clear()
+            else:
+                # If promise is rejected, notify new rejectors. Discard resolvers.
+                while self._rejectors:
+                    rejector = self._rejectors.pop(0)
+                    rejector(cast(Exception, self._error))
+                self._resolvers.clear()
+        finally:
+            self._notifying = False
 
     def then(
         self,
